@@ -28,6 +28,27 @@ type op struct {
 	i, j, lid int64
 	w         float64
 	name      string
+	mixed     bool // the two end point node values are given by ft, tt (tag of a user node, or tagOwn)
+	ft, tt    int
+}
+
+// endFlavours are the combinations of end point node VALUES added to the edge
+// and line operations of the "mixed node values" variants: two user nodes with
+// different payloads, a user node with the container's own node type in either
+// position, and two own nodes. (The default operations use two user nodes with
+// the same payload.) IDs decide everything in the containers' documentation:
+// self-loop detection, node replacement and all queries must not depend on
+// which values carry the IDs.
+var endFlavours = [][2]int{{1, 2}, {1, tagOwn}, {tagOwn, 1}, {tagOwn, tagOwn}}
+
+func flavourName(ft, tt int) string {
+	n := func(t int) string {
+		if t == tagOwn {
+			return "own"
+		}
+		return fmt.Sprintf("user%d", t)
+	}
+	return n(ft) + "/" + n(tt)
 }
 
 // base holds what the three families of systems share: the finding collector,
